@@ -213,14 +213,26 @@ pub struct MergeCase {
     /// identity mode of the generated radials (see `salted_radial`)
     #[serde(default)]
     pub mode: u8,
+    /// invisible state of the operands: bit 0 = the first sweep's radial vector has spare capacity for the union,
+    /// bit 1 = the second one has (capacity is not part of a value, so the result must not depend on it)
+    #[serde(default)]
+    pub spare: u8,
 }
 
 pub fn check_merge(case: &MergeCase) -> Check {
     let mk = |base: i64, elev: u8, az: &[u16]| -> Vec<Radial> {
         az.iter().enumerate().map(|(i, a)| salted_radial(base + i as i64, elev, *a, case.mode)).collect()
     };
-    let ra = mk(0, case.elev_a, &case.az_a);
-    let rb = mk(1_000_000, case.elev_b, &case.az_b);
+    let with_capacity = |v: Vec<Radial>, spare: bool| -> Vec<Radial> {
+        if !spare {
+            return v;
+        }
+        let mut w = Vec::with_capacity(case.az_a.len() + case.az_b.len() + 720);
+        w.extend(v);
+        w
+    };
+    let ra = with_capacity(mk(0, case.elev_a, &case.az_a), case.spare & 1 != 0);
+    let rb = with_capacity(mk(1_000_000, case.elev_b, &case.az_b), case.spare & 2 != 0);
     let mut expected: Vec<Radial> = ra.iter().cloned().chain(rb.iter().cloned()).collect();
     expected.sort_by_key(|r| r.azimuth_number()); // std stable sort = ties keep first-then-second order
     let a = Sweep::new(case.elev_a, ra);
@@ -314,12 +326,13 @@ fn merge_strategy() -> impl Strategy<Value = MergeCase> {
         1 => (big(), big()),
         1 => (big(), az()),
     ];
-    (any::<u8>(), prop_oneof![3 => Just(None), 1 => any::<u8>().prop_map(Some)], pair, 0u8..5).prop_map(|(ea, eb, (az_a, az_b), mode)| MergeCase {
+    (any::<u8>(), prop_oneof![3 => Just(None), 1 => any::<u8>().prop_map(Some)], pair, 0u8..5, prop_oneof![2 => Just(0u8), 1 => 1u8..4]).prop_map(|(ea, eb, (az_a, az_b), mode, spare)| MergeCase {
         elev_a: ea,
         elev_b: eb.unwrap_or(ea),
         az_a,
         az_b,
         mode,
+        spare,
     })
 }
 
@@ -396,6 +409,7 @@ pub fn run(ctx: &Ctx, rep: &mut Report) {
                 .class(c.az_a.is_empty() || c.az_b.is_empty(), "one-side-empty")
                 .class(dup, "cross-duplicate")
                 .class(c.az_a.len() + c.az_b.len() > 1024, "more-than-1024-radials")
+                .class(c.spare != 0, "operand-with-spare-capacity")
         },
         check_merge,
     );
